@@ -1164,7 +1164,8 @@ func getValueWithChainedKeys(m valuerWithParent, keys []string) (any, bool) {
 	default:
 		if v, ok := m.Value(keys[0]); ok {
 			if nextm, ok := v.(map[string]any); ok {
-				return getValueWithChainedKeys(recursiveValuer{
+				// the rest of the key is looked up in this object only, not in its ancestors
+				return getValueWithChainedKeys(simpleValuer{
 					current: mapValuer(nextm),
 					parent:  m,
 				}, keys[1:])
